@@ -66,7 +66,7 @@ package disk
 //@ func (c *SizedLRU) Unreserve(size int64) error
 //@   serves C03
 //@   requires c != nil && c.currentSize >= 0 && c.reservedSize >= 0
-//@   requires[C07] lock: locked
+//@   requires[C07] lock: muHeld
 //@   requires[C03,C07] own: size <= held
 //@   modifies c.currentSize, c.reservedSize
 //@   gmodifies held
@@ -85,7 +85,7 @@ package disk
 //@ func (c *SizedLRU) removeElement(e *list.Element)
 //@   serves C03 C04 C05 C07 C17
 //@   requires c != nil && lruIndex(c)
-//@   requires[C07] lock: locked
+//@   requires[C07] lock: muHeld
 //@   requires elem: e != nil && e.owner == ref(c.ll)
 //@   requires nowrap: 0 - B62() <= c.currentSize && c.currentSize <= B62() && 0 - B62() <= c.uncompressedSize && c.uncompressedSize <= B62()
 //@   modifies c.currentSize, c.uncompressedSize, c.ll.seq, mapof(c.cache), #list.Element.owner, evq
@@ -96,23 +96,41 @@ package disk
 //@   ensures[C04] queued: evq == qadd(old(evq), payload(e.Value))
 //@   ensures owner: e.owner == 0 && (forall o Int :: o != ref(e) ==> #list.Element.owner[o] == old(#list.Element.owner)[o])
 
+//@ func (c *SizedLRU) RemoveElement(elem *list.Element)
+//@   serves C03 C04 C07
+//@   requires lruInv(c)
+//@   requires[C07] lock: muHeld
+//@   requires[C03,C07] current: elem != nil && elem.owner == ref(c.ll)
+//@   modifies c.currentSize, c.uncompressedSize, c.ll.seq, mapof(c.cache), #list.Element.owner, evq
+//@   ensures[C03,C07] inv: lruInv(c)
+
+// Safe variant for callers whose element was looked up in an earlier critical
+// section (no precondition on elem): added by the fix for finding F3.
+//@ func (c *SizedLRU) RemoveIfCurrent(key string, elem *list.Element)
+//@   serves C03 C04 C07
+//@   requires lruInv(c)
+//@   requires[C07] lock: muHeld
+//@   modifies c.currentSize, c.uncompressedSize, c.ll.seq, mapof(c.cache), #list.Element.owner, evq
+//@   ensures[C03,C07] inv: lruInv(c)
+
 //@ func (c *SizedLRU) Get(key string) (lruItem, *list.Element)
 //@   serves C03 C05 C07
 //@   requires lruInv(c)
-//@   requires[C07] lock: locked
+//@   requires[C07] lock: muHeld
 //@   modifies c.ll.seq
 //@   gmodifies hitN, hitSize
 //@   gensures (result1 != nil ==> hitN == old(hitN) + 1 && hitSize == result0.size) && (result1 == nil ==> hitN == old(hitN) && hitSize == old(hitSize))
 //@   ensures[C03,C07] inv: lruInv(c)
 //@   ensures[C05] hit: old(has(c.cache, strkey(key))) ==> (result1 == c.cache[strkey(key)] && result1 != nil && result1.owner == ref(c.ll) &&
 //@       c.ll.seq == mtf(old(c.ll.seq), payload(result1.Value)) && seqfront(c.ll.seq) == payload(result1.Value) &&
-//@       result0.size == entSize(payload(result1.Value)) && result0.sizeOnDisk == entSod(payload(result1.Value)))
+//@       result0.size == entSize(payload(result1.Value)) && result0.sizeOnDisk == entSod(payload(result1.Value)) &&
+//@       0 <= result0.size && 0 <= result0.sizeOnDisk)
 //@   ensures[C05] miss: !old(has(c.cache, strkey(key))) ==> (result1 == nil && c.ll.seq == old(c.ll.seq))
 
 //@ func (c *SizedLRU) Reserve(size int64) error
 //@   serves C03 C05 C07 C17
 //@   requires lruInv(c)
-//@   requires[C07] lock: locked
+//@   requires[C07] lock: muHeld
 //@   modifies c.currentSize, c.reservedSize, c.uncompressedSize, c.ll.seq, mapof(c.cache), #list.Element.owner, evq, qobs, c.totalDiskSizePeak
 //@   gmodifies held, resN
 //@   gensures (result == nil ==> held == old(held) + size) && (result != nil ==> held == old(held)) && resN == old(resN) + 1
@@ -139,7 +157,7 @@ package disk
 //@ func (c *SizedLRU) Add(key string, value lruItem) (ok bool)
 //@   serves C03 C04 C05 C07 C09 C17
 //@   requires lruInv(c)
-//@   requires[C07] lock: locked
+//@   requires[C07] lock: muHeld
 //@   requires sizes: 0 <= value.sizeOnDisk && value.sizeOnDisk <= B62() && 0 <= value.size && value.size <= B62()
 //@   assume nologicaloverflow: c.uncompressedSize + value.size + 4096 <= B62()
 //@   modifies c.currentSize, c.uncompressedSize, c.ll.seq, mapof(c.cache), #list.Element.owner, #list.Element.Value, evq, qobs, c.totalDiskSizePeak,
